@@ -36,7 +36,7 @@ Definition fun2core_preserves_typing_unguarded : Prop :=
 (* the guarded form of round 1: binders of each definition pairwise distinct and distinct from
    its parameters (no shadowing, so the capture defect of fun2core cannot strike).  It is hypothesis
    H_fun2core_wt of C12_pipeline_wt_partial.  Round 2: FALSE as it stands (C12_fun2core_call_main_typing_refuted:
-   a call of `main` is accepted and satisfies barendregt; until fix <commit12> of /repo also a `main` of a non-integer
+   a call of `main` is accepted and satisfies barendregt; until fix 5b8c76f of /repo also a `main` of a non-integer
    type: C12_regression_old_check_main_result); PROVED inside
    the boolean guard prog_tyguard (C12_fun2core_preserves_typing_fragment2 + C12_fun2core_total_fragment2 +
    C12_fun2core_pre_check). *)
@@ -89,7 +89,7 @@ Theorem C12_fun2core_typing_refuted :
 Proof. exact fun2core_typing_refuted_lemma. Qed.
 Print Assumptions C12_fun2core_typing_refuted.
 
-(* REGRESSION (former finding main-non-integer-result, fixed in /repo by <commit12>: Def::check compares the declared
+(* REGRESSION (former finding main-non-integer-result, fixed in /repo by 5b8c76f: Def::check compares the declared
    return type of main with i64).  `data Bar { B }  def main(): Bar { B }` was accepted by the checker that never
    constrained the return type of main ([Check.old_check_main] = the code before the fix), and compile_main types the
    operand of the final `exit` with the annotation of the body:  < B | Bar | mu~ x0. exit x0 >  with x0 : Bar in an
@@ -141,7 +141,7 @@ Print Assumptions C12_fun2core_preserves_typing_refuted.
      NOT shadowing_risk   the syntactic detector of the known finding capture-under-binder (the one modelrun uses):
           the translation never places a continuation under a let variable / clause parameter whose name is free in it;
      no call of `main` (known finding call-to-main);  the body of `main` has type i64 (for a program that comes out of
-          the checker this clause is implied since fix <commit12>: C12_fun2core_preserves_typing_checked below);
+          the checker this clause is implied since fix 5b8c76f: C12_fun2core_preserves_typing_checked below);
      parameters pairwise distinct and of declared types;
    and for the program: type names pairwise distinct and different from _Cont, xtor names distinct within a type,
    definition names distinct (what check_core asks of declarations).
@@ -163,7 +163,7 @@ Theorem C12_fun2core_total_fragment2 : forall p, prog_tyguard p = true -> exists
 Proof. exact fun2core_total_guarded. Qed.
 Print Assumptions C12_fun2core_total_fragment2.
 
-(* FOR CHECKED PROGRAMS the clause about main's type is not needed (fix <commit12>: the checker enforces main : i64).
+(* FOR CHECKED PROGRAMS the clause about main's type is not needed (fix 5b8c76f: the checker enforces main : i64).
    [prog_tyguard_src p] (Proof/Fun2CoreTyChecked.v) = prog_tyguard with main treated like every other definition: the
    annotated body has the declared return type and that type is declared - nothing about i64.  For a program that
    Program::check produced the two guards coincide. *)
@@ -534,7 +534,7 @@ Theorem C12_pipeline_wt_source : forall p,
 Proof. exact pipeline_wt_source_lemma. Qed.
 Print Assumptions C12_pipeline_wt_source.
 (* ... and for a program that comes out of the checker, with the guard that says nothing about main's type
-   (fix <commit12>): *)
+   (fix 5b8c76f): *)
 Theorem C12_pipeline_wt_checked : forall src p,
   Check.check src = COk p -> prog_tyguard_src p = true -> xtor_tys_guard p = true ->
   exists c f a,
